@@ -1,48 +1,48 @@
 package main
 
 import (
-	"regexp"
-	"go/ast"
-	"strconv"
-	"go/types"
-	"go/token"
-	"golang.org/x/tools/go/ssa"
 	"fmt"
+	"go/ast"
+	"go/token"
+	"go/types"
+	"golang.org/x/tools/go/ssa"
 	"os"
+	"regexp"
 	"sort"
+	"strconv"
 	"strings"
 )
 
 // reviewed map loops: key -> reason
 var c08MapLoopExceptions = ExcTable{
-	"fs.(*realFS).WatchData range wasPresent:map[string]bool":                 "watch mode only: returns the first directory entry whose presence changed; which of several changed entries is named affects only the 'file changed' trigger text, the rebuild itself re-reads everything",
-	"fs.(*realFS).WatchData range watchData:map[string]fs.privateWatchData":   "per-path effects only (paths[path] keyed by a copy of the loop key); modKey(path) reads the file system and touches no shared state",
-	"fs.(*zipFS).ReadDirectory range entries:map[string]fs.EntryKind":          "insert keyed by the lower-cased name: collides only if one zip directory has two names differing only by case; file lookup itself is by lower-cased path in archive order; no observable difference could be produced (tried)",
-	"fs.MockFS range param input:map[string]string":                            "test/mock file system: directory entries inserted per path; values for one key are equal in every order unless a path is both a file and a directory; the `break` ends the walk up to the root, not the map loop",
-	"js_parser.(*parser).generateImportStmt range param symbols:map[string]ast.LocRef": "minimum by Loc.Start; logger.Loc has Start as its only field, so the stored value is determined by the compared key (commutative min)",
-	"linker.(*linkerContext).addExportsForExportStar range NamedExports:map[string]js_ast.NamedExport": "ImportsToBind[name.Ref] is keyed by the value's own Ref and stores {Ref: name.Ref, SourceIndex: otherSourceIndex}: fully determined by the key and a loop-invariant",
-	"linker.(*linkerContext).computeCrossChunkDependencies range imports:map[ast.Ref]bool": "appends into importsFromOtherChunks[chunk], which sortedCrossChunkImports sorts (by export alias, then chunks by index) before any use; exports[ref]=true is a set insert",
-	"linker.(*linkerContext).mangleProps range MangledProps:map[string]ast.Ref": "each property name occurs once per file; merges for different names touch disjoint symbols; the merge target is fixed by the outer loop over ReachableFiles (ordered)",
-	"linker.(*linkerContext).scanImportsAndExports range ImportsToBind:map[ast.Ref]graph.ImportData": "Part.Dependencies is consumed as a set by the tree-shaking closure; MergeSymbols links each import symbol to its export (distinct keys); the only order-sensitive part of MergeContentsWith (name transfer between two pinned symbols) needs two must-not-rename import aliases of one export, which only arises under direct eval where the file is wrapped as CommonJS and imports are not bound (checked by experiment)",
-	"linker.(*linkerContext).scanImportsAndExports range SymbolUses:map[ast.Ref]js_ast.SymbolUse": "appends to Part.Dependencies, which is consumed as a set by the tree-shaking closure (markPartLiveForTreeShaking visits every dependency; liveness is a closure and does not depend on visiting order)",
-	"pkg/api.(*apiHandler).broadcastBuildResult range local:map[string]string":        "serve mode live-reload event: collected into added/removed/updated which are sorted (sort.Strings) before being sent",
-	"pkg/api.(*apiHandler).broadcastBuildResult range param newHashes:map[string]string": "serve mode live-reload event: collected into added/removed/updated which are sorted (sort.Strings) before being sent",
-	"pkg/api.(*watcher).tryToFindDirtyPath range Paths:map[string]func() string":       "watch mode deliberately scans paths in a shuffled order (Fisher-Yates right below); it decides when a rebuild starts, not what it produces",
-	"pkg/api.rebuildImpl range param oldHashes:map[string]string":                      "collects stale outputs to delete; each is removed by its own goroutine, order irrelevant (a set of os.Remove calls)",
-	"pkg/api.validateDefines range local:map[string]config.DefineData":                 "ProcessDefines turns the array into keyed lookups (identifier map, dot-defines bucketed by last part and matched by full part list); rawDefines keys are unique so bucket order cannot change which define matches",
-	"pkg/cli.parseTargets range validEngines:map[string]pkg/api.EngineName":            "engine names are mutually prefix-free, so at most one entry satisfies strings.HasPrefix(value, engine); the error list below is sorted (sort.Strings(engines))",
-	"renamer.(*MinifyRenamer).AccumulateSymbolUseCounts range param symbolUses:map[ast.Ref]js_ast.SymbolUse": "adds counts into per-slot counters (atomic integer adds) and appends top-level symbols to an array that is sorted by (count, stable source index, inner index) before names are assigned",
-	"renamer.(*NumberRenamer).AssignNamesByScope range param nestedScopes:map[uint32][]*js_ast.Scope": "one goroutine per file, joined by a WaitGroup; each writes only r.names[its own sourceIndex] and reads the frozen root scope",
-	"resolver.(*Resolver).Resolve range PackageAliases:map[string]string":              "longest matching key with a strict > comparison: two matching keys of equal length are both prefixes of importPath of the same length, hence equal; argmax is unique",
-	"resolver.(resolverQuery).finalizeImportsExportsResult range rewrittenFileExtensions:map[string][]string": "the keys .js/.jsx/.mjs/.cjs are mutually suffix-free, so at most one iteration passes strings.HasSuffix(base, old) and the loop breaks right after it",
-	"resolver.(resolverQuery).loadAsFile range rewrittenFileExtensions:map[string][]string": "the keys .js/.jsx/.mjs/.cjs are mutually suffix-free, so at most one iteration passes strings.HasSuffix(base, old) and the loop breaks right after it",
+	"fs.(*realFS).WatchData range wasPresent:map[string]bool":                                                                                                           "watch mode only: returns the first directory entry whose presence changed; which of several changed entries is named affects only the 'file changed' trigger text, the rebuild itself re-reads everything",
+	"fs.(*realFS).WatchData range watchData:map[string]fs.privateWatchData":                                                                                             "per-path effects only (paths[path] keyed by a copy of the loop key); modKey(path) reads the file system and touches no shared state",
+	"fs.(*zipFS).ReadDirectory range entries:map[string]fs.EntryKind":                                                                                                   "insert keyed by the lower-cased name: collides only if one zip directory has two names differing only by case; file lookup itself is by lower-cased path in archive order; no observable difference could be produced (tried)",
+	"fs.MockFS range param input:map[string]string":                                                                                                                     "test/mock file system: directory entries inserted per path; values for one key are equal in every order unless a path is both a file and a directory; the `break` ends the walk up to the root, not the map loop",
+	"js_parser.(*parser).generateImportStmt range param symbols:map[string]ast.LocRef":                                                                                  "minimum by Loc.Start; logger.Loc has Start as its only field, so the stored value is determined by the compared key (commutative min)",
+	"linker.(*linkerContext).addExportsForExportStar range NamedExports:map[string]js_ast.NamedExport":                                                                  "ImportsToBind[name.Ref] is keyed by the value's own Ref and stores {Ref: name.Ref, SourceIndex: otherSourceIndex}: fully determined by the key and a loop-invariant",
+	"linker.(*linkerContext).computeCrossChunkDependencies range imports:map[ast.Ref]bool":                                                                              "appends into importsFromOtherChunks[chunk], which sortedCrossChunkImports sorts (by export alias, then chunks by index) before any use; exports[ref]=true is a set insert",
+	"linker.(*linkerContext).mangleProps range MangledProps:map[string]ast.Ref":                                                                                         "each property name occurs once per file; merges for different names touch disjoint symbols; the merge target is fixed by the outer loop over ReachableFiles (ordered)",
+	"linker.(*linkerContext).scanImportsAndExports range ImportsToBind:map[ast.Ref]graph.ImportData":                                                                    "Part.Dependencies is consumed as a set by the tree-shaking closure; MergeSymbols links each import symbol to its export (distinct keys); the only order-sensitive part of MergeContentsWith (name transfer between two pinned symbols) needs two must-not-rename import aliases of one export, which only arises under direct eval where the file is wrapped as CommonJS and imports are not bound (checked by experiment)",
+	"linker.(*linkerContext).scanImportsAndExports range SymbolUses:map[ast.Ref]js_ast.SymbolUse":                                                                       "appends to Part.Dependencies, which is consumed as a set by the tree-shaking closure (markPartLiveForTreeShaking visits every dependency; liveness is a closure and does not depend on visiting order)",
+	"pkg/api.(*apiHandler).broadcastBuildResult range local:map[string]string":                                                                                          "serve mode live-reload event: collected into added/removed/updated which are sorted (sort.Strings) before being sent",
+	"pkg/api.(*apiHandler).broadcastBuildResult range param newHashes:map[string]string":                                                                                "serve mode live-reload event: collected into added/removed/updated which are sorted (sort.Strings) before being sent",
+	"pkg/api.(*watcher).tryToFindDirtyPath range Paths:map[string]func() string":                                                                                        "watch mode deliberately scans paths in a shuffled order (Fisher-Yates right below); it decides when a rebuild starts, not what it produces",
+	"pkg/api.rebuildImpl range param oldHashes:map[string]string":                                                                                                       "collects stale outputs to delete; each is removed by its own goroutine, order irrelevant (a set of os.Remove calls)",
+	"pkg/api.validateDefines range local:map[string]config.DefineData":                                                                                                  "ProcessDefines turns the array into keyed lookups (identifier map, dot-defines bucketed by last part and matched by full part list); rawDefines keys are unique so bucket order cannot change which define matches",
+	"pkg/cli.parseTargets range validEngines:map[string]pkg/api.EngineName":                                                                                             "engine names are mutually prefix-free, so at most one entry satisfies strings.HasPrefix(value, engine); the error list below is sorted (sort.Strings(engines))",
+	"renamer.(*MinifyRenamer).AccumulateSymbolUseCounts range param symbolUses:map[ast.Ref]js_ast.SymbolUse":                                                            "adds counts into per-slot counters (atomic integer adds) and appends top-level symbols to an array that is sorted by (count, stable source index, inner index) before names are assigned",
+	"renamer.(*NumberRenamer).AssignNamesByScope range param nestedScopes:map[uint32][]*js_ast.Scope":                                                                   "one goroutine per file, joined by a WaitGroup; each writes only r.names[its own sourceIndex] and reads the frozen root scope",
+	"resolver.(*Resolver).Resolve range PackageAliases:map[string]string":                                                                                               "longest matching key with a strict > comparison: two matching keys of equal length are both prefixes of importPath of the same length, hence equal; argmax is unique",
+	"resolver.(resolverQuery).finalizeImportsExportsResult range rewrittenFileExtensions:map[string][]string":                                                           "the keys .js/.jsx/.mjs/.cjs are mutually suffix-free, so at most one iteration passes strings.HasSuffix(base, old) and the loop breaks right after it",
+	"resolver.(resolverQuery).loadAsFile range rewrittenFileExtensions:map[string][]string":                                                                             "the keys .js/.jsx/.mjs/.cjs are mutually suffix-free, so at most one iteration passes strings.HasSuffix(base, old) and the loop breaks right after it",
 	"resolver.(resolverQuery).matchTSConfigPaths range Map:map[string][]resolver.TSConfigPath [assigns longestMatch,longestMatchPrefixLength,longestMatchSuffixLength]": "lexicographic maximum of (prefix length, suffix length) with strict comparisons; two matching patterns with equal lengths have equal prefix and suffix strings, i.e. are the same key (the code comment states this is done for determinism)",
-	"resolver.(resolverQuery).parseTSConfigFromSource range Map:map[string][]resolver.TSConfigPath": "filters each key's own slice in place and stores it back under the loop key; the helper only logs located warnings and lazily creates one shared tracker (idempotent)",
+	"resolver.(resolverQuery).parseTSConfigFromSource range Map:map[string][]resolver.TSConfigPath":                                                                     "filters each key's own slice in place and stores it back under the loop key; the helper only logs located warnings and lazily creates one shared tracker (idempotent)",
 }
 
 func init() {
 	register(&Property{
-		ID: "C08",
+		ID:          "C08",
 		Explanation: "Decides the absence of the enumerable nondeterminism sources on paths that produce output or diagnostics (necessary conditions of byte-identical builds, not the behaviour): R1 every `range` over a map in non-test code is order-insensitive (commutative body, collect-then-sort, located-diagnostics-only) or a reviewed entry; R2 goroutines deliver results by pre-assigned index or into sorted collections, never by completion order; R3 sort comparators and hash inputs never use unstable source indices; R4 clock/random/environment reads occur only at the reviewed owner sites; R5 no multi-way select on build paths; R6 no location-less diagnostic is logged from concurrently running goroutines. R3 also decides (c) that no raw source index is stored into an integer field a comparator reads and (d) that no decision is taken on the size of the source-index table. R9 goroutine-private-slots: goroutines started in a loop store into shared slices only at elements selected by their own per-iteration parameters (interprocedural element-store summaries). R10 process-wide-state-immutable: E-GLOB. R11 range-self-mutation: no range loop over a slice-typed field stores into or appends to that field at another index inside the loop (compaction cursors recognised). R12 cache-key-coverage / R13 cache-key-unconditional: the C09/R1 analyses. NOT covered: totality of sort comparators, absolute-path independence (paths are run-time values), determinism of plugin code.",
 		Run: func(p *Prog, tier string) []*RuleResult {
 			return []*RuleResult{c08MapOrder(p), c08GoroutineOrder(p), c08UnstableKeys(p), c08Ambient(p), c08Select(p), c08LoggerOrder(p), c08SerializedUpdate(p), renamed(c09Frozen(p), "C08/R8 shared-ast-immutability", "linkers of different entry points run in parallel over one parsed AST: a post-parse store into AST memory that was not cloned for this link makes the output depend on scheduling (same analysis as C09/R2)"), goroutinePrivateSlots(p, "C08/R9 goroutine-private-slots"), globalSharedImmutability(p, "C08/R10 process-wide-state-immutable"), c08RangeSelfMutation(p), renamed(c09CacheKey(p), "C08/R12 cache-key-coverage", "a build in a context reuses parse results of earlier builds keyed by the parse options: an option that the key does not compare makes the output of this build depend on what an earlier build left in the cache, i.e. the same inputs and options no longer give the same bytes (same analysis as C09/R1)"), renamed(c09UnconditionalKey(p), "C08/R13 cache-key-unconditional", "every option the cache key compares is compared on every path to `equal`: a comparison made only under a condition on another option lets two different option sets share a cached AST (same analysis as C09/R1c)")}
@@ -222,13 +222,13 @@ var c08GoAccumExceptions = ExcTable{
 }
 
 var c08GoSendExceptions = ExcTable{
-	"bundler.parseFile send chan chan bundler.parseResult":                       "received by scanAllDependencies, which stores each result by its own source index (s.results[sourceIndex]); source indices themselves are unstable and are never used for ordering (C08/R3)",
-	"bundler.parseFile$1 send chan chan bundler.parseResult":                     "recover path of parseFile: same receiver, result stored by source index",
-	"bundler.parseFile send chan chan config.InjectedFile":                       "each injected file has its own channel, and preprocessInjectedFiles receives from the channels in the user's inject order",
+	"bundler.parseFile send chan chan bundler.parseResult":                            "received by scanAllDependencies, which stores each result by its own source index (s.results[sourceIndex]); source indices themselves are unstable and are never used for ordering (C08/R3)",
+	"bundler.parseFile$1 send chan chan bundler.parseResult":                          "recover path of parseFile: same receiver, result stored by source index",
+	"bundler.parseFile send chan chan config.InjectedFile":                            "each injected file has its own channel, and preprocessInjectedFiles receives from the channels in the user's inject order",
 	"bundler.(*scanner).preprocessInjectedFiles$1 send chan chan bundler.parseResult": "forwards a define-injected file result to the scan loop, which stores by source index",
-	"bundler.ScanBundle$2 send chan chan bundler.parseResult":                    "the runtime file's result; stored at the fixed runtime source index",
-	"linker.(*linkerContext).generateIsolatedHash send chan chan []byte":         "one buffered channel per chunk carrying exactly one value (that chunk's isolated hash); readers block on the specific chunk they need",
-	"pkg/api.(*apiHandler).serveEventStream$1 send chan chan struct{}":           "serve mode: signals that an HTTP event-stream client went away; no build output involved",
+	"bundler.ScanBundle$2 send chan chan bundler.parseResult":                         "the runtime file's result; stored at the fixed runtime source index",
+	"linker.(*linkerContext).generateIsolatedHash send chan chan []byte":              "one buffered channel per chunk carrying exactly one value (that chunk's isolated hash); readers block on the specific chunk they need",
+	"pkg/api.(*apiHandler).serveEventStream$1 send chan chan struct{}":                "serve mode: signals that an HTTP event-stream client went away; no build output involved",
 }
 
 // derivedFromParam: is v computed only from parameters of fn (incl. conversions, arithmetic, field reads of params)?
@@ -427,14 +427,14 @@ type excGuard struct {
 }
 
 var c08Guards = map[string][]excGuard{
-	"graph.CloneLinkerGraph$1 append captured dynamicImportEntryPoints":                      {{fn: "graph.CloneLinkerGraph", callee: "sort.Ints", n: 1}},
-	"linker.(*linkerContext).computeCrossChunkDependencies range imports:map[ast.Ref]bool":   {{fn: "linker.(*linkerContext).sortedCrossChunkImports", callee: "sort.Sort", n: 2}},
-	"pkg/api.(*apiHandler).broadcastBuildResult range local:map[string]string":               {{fn: "pkg/api.(*apiHandler).broadcastBuildResult", callee: "sort.Strings", n: 3}},
-	"pkg/api.(*apiHandler).broadcastBuildResult range param newHashes:map[string]string":     {{fn: "pkg/api.(*apiHandler).broadcastBuildResult", callee: "sort.Strings", n: 3}},
-	"pkg/cli.parseTargets range validEngines:map[string]pkg/api.EngineName":                  {{fn: "pkg/cli.parseTargets", callee: "sort.Strings", n: 1}, {litPkg: modPath + "/pkg/cli", litVar: "validEngines", keyMode: "prefix-free"}},
+	"graph.CloneLinkerGraph$1 append captured dynamicImportEntryPoints":                                       {{fn: "graph.CloneLinkerGraph", callee: "sort.Ints", n: 1}},
+	"linker.(*linkerContext).computeCrossChunkDependencies range imports:map[ast.Ref]bool":                    {{fn: "linker.(*linkerContext).sortedCrossChunkImports", callee: "sort.Sort", n: 2}},
+	"pkg/api.(*apiHandler).broadcastBuildResult range local:map[string]string":                                {{fn: "pkg/api.(*apiHandler).broadcastBuildResult", callee: "sort.Strings", n: 3}},
+	"pkg/api.(*apiHandler).broadcastBuildResult range param newHashes:map[string]string":                      {{fn: "pkg/api.(*apiHandler).broadcastBuildResult", callee: "sort.Strings", n: 3}},
+	"pkg/cli.parseTargets range validEngines:map[string]pkg/api.EngineName":                                   {{fn: "pkg/cli.parseTargets", callee: "sort.Strings", n: 1}, {litPkg: modPath + "/pkg/cli", litVar: "validEngines", keyMode: "prefix-free"}},
 	"resolver.(resolverQuery).finalizeImportsExportsResult range rewrittenFileExtensions:map[string][]string": {{litPkg: modPath + "/internal/resolver", litVar: "rewrittenFileExtensions", keyMode: "suffix-free"}},
 	"resolver.(resolverQuery).loadAsFile range rewrittenFileExtensions:map[string][]string":                   {{litPkg: modPath + "/internal/resolver", litVar: "rewrittenFileExtensions", keyMode: "suffix-free"}},
-	"renamer.(*MinifyRenamer).AccumulateSymbolUseCounts range param symbolUses:map[ast.Ref]js_ast.SymbolUse": {{fn: "linker.(*linkerContext).renameSymbolsInChunk", callee: "sort.Sort", n: 2}},
+	"renamer.(*MinifyRenamer).AccumulateSymbolUseCounts range param symbolUses:map[ast.Ref]js_ast.SymbolUse":  {{fn: "linker.(*linkerContext).renameSymbolsInChunk", callee: "sort.Sort", n: 2}},
 }
 
 func countCalls(p *Prog, fnName, callee string) int {
@@ -727,27 +727,27 @@ func isAmbient(n string) bool {
 }
 
 var c08AmbientOwners = ExcTable{
-	"bundler.generateUniqueKeyPrefix math/rand.Read": "unique-key prefix for placeholders; placeholders never reach hashes or final bytes (C18/R3)",
-	"bundler.generateUniqueKeyPrefix math/rand.Seed": "unique-key prefix for placeholders; placeholders never reach hashes or final bytes (C18/R3)",
-	"bundler.generateUniqueKeyPrefix time.Now":       "seed of the unique-key prefix",
-	"cmd/esbuild.init$1 os.LookupEnv":                "CLI: NO_COLOR / terminal detection, presentation only",
-	"cmd/esbuild.main$1 time.Now":                    "CLI: timing summary, presentation only",
-	"cmd/esbuild.main$1 time.Since":                  "CLI: timing summary, presentation only",
-	"fs.modKey time.Now":                             "mod-key safety gap: a file modified within the last seconds is treated as having no usable mod key (falls back to content comparison); affects only change detection, never output bytes",
-	"helpers.(*Timer).Begin time.Now":                "--timing instrumentation, logged only",
-	"helpers.(*Timer).End time.Now":                  "--timing instrumentation, logged only",
-	"logger.PrintSummary$1 time.Since":               "CLI summary ('Done in 5ms'), terminal only",
-	"logger.hasNoColorEnvironmentVariable$1 os.LookupEnv": "NO_COLOR: terminal colours only",
-	"logger.isProbablyWindowsCommandPrompt os.LookupEnv":  "WT_SESSION: terminal glyph choice only",
-	"pkg/api.(*apiHandler).ServeHTTP time.Now":       "serve mode request log timing",
-	"pkg/api.(*apiHandler).ServeHTTP time.Since":     "serve mode request log timing",
-	"pkg/api.(*apiHandler).serveEventStream time.Since": "serve mode request log timing",
+	"bundler.generateUniqueKeyPrefix math/rand.Read":         "unique-key prefix for placeholders; placeholders never reach hashes or final bytes (C18/R3)",
+	"bundler.generateUniqueKeyPrefix math/rand.Seed":         "unique-key prefix for placeholders; placeholders never reach hashes or final bytes (C18/R3)",
+	"bundler.generateUniqueKeyPrefix time.Now":               "seed of the unique-key prefix",
+	"cmd/esbuild.init$1 os.LookupEnv":                        "CLI: NO_COLOR / terminal detection, presentation only",
+	"cmd/esbuild.main$1 time.Now":                            "CLI: timing summary, presentation only",
+	"cmd/esbuild.main$1 time.Since":                          "CLI: timing summary, presentation only",
+	"fs.modKey time.Now":                                     "mod-key safety gap: a file modified within the last seconds is treated as having no usable mod key (falls back to content comparison); affects only change detection, never output bytes",
+	"helpers.(*Timer).Begin time.Now":                        "--timing instrumentation, logged only",
+	"helpers.(*Timer).End time.Now":                          "--timing instrumentation, logged only",
+	"logger.PrintSummary$1 time.Since":                       "CLI summary ('Done in 5ms'), terminal only",
+	"logger.hasNoColorEnvironmentVariable$1 os.LookupEnv":    "NO_COLOR: terminal colours only",
+	"logger.isProbablyWindowsCommandPrompt os.LookupEnv":     "WT_SESSION: terminal glyph choice only",
+	"pkg/api.(*apiHandler).ServeHTTP time.Now":               "serve mode request log timing",
+	"pkg/api.(*apiHandler).ServeHTTP time.Since":             "serve mode request log timing",
+	"pkg/api.(*apiHandler).serveEventStream time.Since":      "serve mode request log timing",
 	"pkg/api.(*watcher).tryToFindDirtyPath math/rand.Int31n": "watch mode deliberately shuffles the scan order",
 	"pkg/api.(*watcher).tryToFindDirtyPath math/rand.Seed":   "watch mode deliberately shuffles the scan order",
 	"pkg/api.(*watcher).tryToFindDirtyPath time.Now":         "seed of the watch-mode shuffle",
-	"pkg/api.Build time.Now":                         "summary timing (LogLevel info), presentation only",
-	"pkg/api.printSummary os.LookupEnv":              "npm_config_user_agent: whether to print the summary table under yarn 1; presentation only",
-	"pkg/cli.runImpl os.LookupEnv":                   "NODE_PATH is an explicit, documented input of the CLI (part of 'the same options')",
+	"pkg/api.Build time.Now":                                 "summary timing (LogLevel info), presentation only",
+	"pkg/api.printSummary os.LookupEnv":                      "npm_config_user_agent: whether to print the summary table under yarn 1; presentation only",
+	"pkg/cli.runImpl os.LookupEnv":                           "NODE_PATH is an explicit, documented input of the CLI (part of 'the same options')",
 }
 
 func c08Ambient(p *Prog) *RuleResult {
